@@ -120,8 +120,8 @@ DEVIATIONS = [
     ("MCMutFinallyNoRelease", "SlotsRestored", SMALL),
     ("MCMutExcept", "OnlyUrllib3Errors", SMALL),
     ("MCMutFullNoClose", "NoOrphanSocket", SMALL),
-    ("MCMutReleaseKeeps", "NoDuplicate", SMALL),
-    ("MCMutDropped", "NoOrphanSocket", SMALL),
+    ("MCMutReleaseKeeps", "NoDuplicate", dict(SMALL, ns="{2}", first="MCTiny")),
+    ("MCMutDropped", "BlockBound", SMALL),      # the forgotten socket first shows as one connection too many
 ]
 
 
@@ -467,10 +467,12 @@ def run(rep):
                        "called close() and the peer saw EOF after the caller dropped its responses and gc.collect()",
                        "TLC 1.8, CPython http.client and vh/net.py are trusted"]
     # ---- stage 1a: the whole model, all workers, coverage read back (vacuity gate)
-    covplan = dict(plans[1][1]) if quick else dict(plans[1][1])
+    covplan = dict(plans[1][1])
     r = tlc.run("MC_Pool", plan_cfg(covplan), workers=JOBS if JOBS <= 16 else 16, heap="4g", coverage=True,
                 expect_fail=True, timeout=7200)
-    rep.add_tlc("MC_Pool stage1+coverage " + json.dumps(covplan), r)
+    # (its states are counted once, with the sharded run of the same plan below)
+    rep.stage1.append({"run": "MC_Pool unsharded, -coverage 1, " + json.dumps(covplan), "distinct_states": r.distinct,
+                       "states_generated": r.generated, "depth": r.depth, "wall_s": round(r.wall, 2)})
     if r.violated or r.error:
         rep.violation("ModelViolatesRules", f"TLC: {r.violated or r.error} on the Model with KnownDefects = {{}}", None)
     missing = [a for a in ACTIONS if r.coverage.get(a, (0, 0))[1] == 0]
@@ -511,11 +513,11 @@ def run(rep):
                                "histories_emitted": emitted, "histories_replayed": sum(o["n"] for o in outs)})
             _absorb(rep, findings, outs, counters)
         # ---- random histories beyond the bound
-        nrand = 1600 if quick else 60000
-        per = max(1, nrand // k)
-        outs = pool.map(_random_shard, [(rep.seed * 100003 + s, per) for s in range(k)], chunksize=1)
+        nrand, chunks = (1600, 16) if quick else (60000, 48)      # chunking independent of VERIF_JOBS: same seed,
+        per = nrand // chunks                                       # same histories on any machine
+        outs = pool.map(_random_shard, [(rep.seed * 100003 + c, per) for c in range(chunks)], chunksize=1)
         _absorb(rep, findings, outs, counters)
-        rep.extra["random_histories"] = per * k
+        rep.extra["random_histories"] = per * chunks
     rep.extra["trace_events"] = counters["events"]
     rep.extra["verdicts"] = counters["clauses"]
     rep.extra["known_finding_traces"] = counters["known"]
